@@ -12,6 +12,7 @@ B2I(v) == IF v THEN 1 ELSE 0
 \* known-defect deviations tolerated in this run (file named by VERIF_DEVS, one {"dev": name} per line)
 DevSet == LET d == ndJsonDeserialize(IOEnv.VERIF_DEVS) IN {d[i].dev : i \in 1..Len(d)}
 SetOfSeq(sq) == {sq[i] : i \in 1..Len(sq)}
+LUN == "LenientUniqueName" \in DevSet
 
 \* ---- grammar predicates (C16) ----
 SynExpected(c) ==
@@ -32,20 +33,20 @@ SynOK(c) == LET e == B2I(SynExpected(c)) IN
 
 \* ---- untrusted bytes (C01) ----
 DemOK(c) ==
-  LET fr == Frame(c.b)
+  LET fr == FrameL(c.b, LUN)
       shouldAcc == ~fr.corrupt /\ Len(fr.out) >= 1
       fx == IF Len(c.b) >= 16 THEN Fixed(SubSeq(c.b, 1, 16)) ELSE [ok |-> FALSE, total |-> 0] IN
   /\ c.acc = B2I(shouldAcc)
   /\ c.lc = B2I(fr.corrupt) /\ c.ln = Len(fr.out)
   /\ c.need = (IF Len(c.b) < 16 THEN 0 ELSE IF fx.ok THEN fx.total ELSE -1)
-  /\ (shouldAcc => LET d == MessageDec(SubSeq(c.b, 1, fx.total), 0) IN d.ok /\ c.m = d.m)
+  /\ (shouldAcc => LET d == MessageDecL(SubSeq(c.b, 1, fx.total), 0, LUN) IN d.ok /\ c.m = d.m)
 
 \* ---- chunked feeding (C11) ----
 RECURSIVE StepsOK(_,_,_,_)
 StepsOK(c, k, seen, dead) ==
   IF k > Len(c.steps) THEN TRUE
   ELSE LET st == c.steps[k]
-           fr == Frame(SubSeq(c.b, 1, st.fed))
+           fr == FrameL(SubSeq(c.b, 1, st.fed), LUN)
            want == IF dead THEN <<>> ELSE SubSeq(fr.out, seen + 1, Len(fr.out)) IN
        /\ st.out = want
        /\ st.corrupt = B2I(fr.corrupt)
